@@ -24,6 +24,26 @@ import (
 	"verif/harness/internal/hx"
 )
 
+// preparer: machines whose snapshot is taken in two steps (PrepareSnapshot fixes the point in time, SaveSnapshot
+// writes it later, possibly after further updates)
+type preparer interface {
+	prepare() interface{}
+	saveCtx(ctx interface{}) ([]byte, error)
+}
+
+func (m *concM) prepare() interface{} { c, _ := m.s.PrepareSnapshot(); return c }
+func (m *concM) saveCtx(ctx interface{}) ([]byte, error) {
+	var b bytes.Buffer
+	err := m.s.SaveSnapshot(ctx, &b, nil, nil)
+	return b.Bytes(), err
+}
+func (m *diskM) prepare() interface{} { c, _ := m.s.PrepareSnapshot(); return c }
+func (m *diskM) saveCtx(ctx interface{}) ([]byte, error) {
+	var b bytes.Buffer
+	err := m.s.SaveSnapshot(ctx, &b, nil)
+	return b.Bytes(), err
+}
+
 type machine interface {
 	update(idx uint64, cmds [][]byte)
 	lookup(key []byte) []byte
@@ -263,6 +283,14 @@ func main() {
 				run.Violate(hx.Violation{Property: "C15", Clause: clause, Signature: kind + ":" + sig, What: what, Seq: seqNo, Ops: append([]J{}, ops...)})
 			}
 			dead := false
+			// a snapshot prepared on replica 0 at some point and saved later
+			var prepCtx interface{}
+			type batch struct {
+				idx   uint64
+				cmds  [][]byte
+				hexes []string
+			}
+			var since []batch
 			for s := 0; s < steps && !dead; s++ {
 				nb := 1 + r.Intn(8)
 				cmds := [][]byte{}
@@ -288,7 +316,52 @@ func main() {
 				if dead {
 					break
 				}
+				if prepCtx != nil {
+					since = append(since, batch{idx, cmds, hexes})
+				}
 				idx += uint64(nb)
+				if pm, ok := ms[0].(preparer); ok {
+					if prepCtx == nil && r.Intn(5) == 0 {
+						prepCtx = pm.prepare()
+						since = nil
+						op := J{"op": "prep", "id": 0}
+						ops = append(ops, op)
+						emit(op, "ok")
+						run.Count("c15:snapshot_prepared")
+					} else if prepCtx != nil && len(since) > 0 && r.Intn(3) == 0 {
+						// the prepared snapshot is saved only now, after further updates, and handed to a fresh replica, which
+						// then applies the updates it missed
+						data, err := pm.saveCtx(prepCtx)
+						prepCtx = nil
+						if err != nil {
+							run.Count("c15:inconclusive_snapshot_aborted")
+							emit(J{"op": "unprep", "id": 0}, "ok")
+						} else {
+							c := newMachine(kind)
+							emit(J{"op": "new", "id": 1, "kind": kind}, "ok")
+							op := J{"op": "snapprep", "id": 0, "to": 1}
+							ops = append(ops, op)
+							c.recover(data)
+							ms[1] = c
+							emit(op, "ok")
+							for _, b := range since {
+								uop := J{"op": "update", "id": 1, "idx": b.idx, "cmds": b.hexes, "pooled": true}
+								ops = append(ops, uop)
+								if guard(func() { ms[1].update(b.idx, b.cmds) }) {
+									emit(uop, "panic")
+									fail("snapshot_restores_exactly", "replay-after-prepared-snapshot-crash", kind+": a replica restored from a snapshot prepared earlier crashed on the updates made since")
+									dead = true
+									break
+								}
+								emit(uop, "ok")
+							}
+							run.Count("c15:prepared_snapshot_handover")
+						}
+					}
+				}
+				if dead {
+					break
+				}
 				if r.Intn(2) == 0 {
 					what := []string{"lookup", "sync", "prepare", "save", "reopen"}[r.Intn(5)]
 					if kind != "disk" && (what == "sync" || what == "reopen") {
